@@ -105,7 +105,7 @@ def _mut_work(args):
             k, d = classify(src, "f.c", check_loc=False)
             if k == "ok":
                 bad.append(("accepted single-bracket mutant laid out with all tokens at one position", src))
-            elif k.startswith("bad"):
+            elif k.startswith("bad") and k != "bad:location-prefix":      # (the location names the line markers' files)
                 bad.append(("bracket mutant (one position for all tokens) not rejected with ParseError: %s %s" % (k, d), src))
     if with_inject:
         for _ in range(min(len(vals) + 1, 12)):
